@@ -394,108 +394,163 @@ func checkC04(cx *Ctx, r *Report) {
 	// ... and the signature that was made is the one attached: wherever signature.Create is called, its result is
 	// stored into the message's Signature field before any return that reports success
 	nAttach := 0
-	for _, fn := range w.Funcs {
-		for _, c := range callsIn(fn) {
-			call, isCall := c.(*ssa.Call)
-			g := calleeOf(c)
-			if !isCall || g == nil || w.FuncKey(g) != "signature.Create" {
+	// a module function that hands the signature on to its caller as its own first result - together with the signing
+	// call's verdict, and with nothing but certain errors on its other returns - makes a signature just as
+	// signature.Create does: the obligation to attach it moves to its callers
+	producers := map[*ssa.Function]bool{}
+	if sc := w.Func("signature.Create"); sc != nil {
+		producers[sc] = true
+	}
+	handsOn := func(fn *ssa.Function, call *ssa.Call, sigv ssa.Value) bool {
+		if sigv == nil || fn.Signature.Results().Len() < 2 || !isErrorType(fn.Signature.Results().At(fn.Signature.Results().Len()-1).Type()) {
+			return false
+		}
+		handed := false
+		for _, ret := range returnsOf(fn) {
+			if len(ret.Results) < 2 {
+				return false
+			}
+			last := ret.Results[len(ret.Results)-1]
+			if isFreshError(last) {
 				continue
 			}
-			nAttach++
-			var sigv ssa.Value
-			for _, ref := range nonDebugRefs(call) {
-				if ex, isE := ref.(*ssa.Extract); isE && ex.Index == 0 {
-					sigv = ex
-				}
-			}
-			var stores []*ssa.Store
-			if sigv != nil {
-				for _, st := range fx.info(fn).stores {
-					fa, isFA := st.Addr.(*ssa.FieldAddr)
-					if !isFA || fname(fieldVar(fa.X.Type(), fa.Field)) != "Signature" {
-						continue
-					}
-					same := st.Val == sigv
-					for _, a := range fx.aliasesOf(sigv) {
-						if a == st.Val {
-							same = true
-						}
-					}
-					if same {
-						stores = append(stores, st)
+			if nonNil, tested := fx.errBranches(last); tested {
+				onFailing := false
+				for _, nb := range nonNil {
+					if len(nb.Preds) == 1 && (nb == ret.Block() || nb.Dominates(ret.Block())) {
+						onFailing = true
 					}
 				}
+				if onFailing {
+					continue
+				}
 			}
-			bad := ""
-			if len(stores) == 0 {
-				bad = "the signature made here is never stored into the message"
+			ex, isE := last.(*ssa.Extract)
+			if ret.Results[0] == sigv && isE && ex.Tuple == ssa.Value(call) {
+				handed = true
+				continue
 			}
-			fi := fx.info(fn)
-			for _, ret := range returnsOf(fn) {
-				if bad != "" || len(ret.Results) == 0 || !fi.reachable(call.Block(), ret.Block()) && call.Block() != ret.Block() {
+			return false
+		}
+		return handed
+	}
+	for round := 0; round < 3; round++ {
+		grew := false
+		for _, fn := range w.Funcs {
+			if producers[fn] {
+				continue
+			}
+			for _, c := range callsIn(fn) {
+				call, isCall := c.(*ssa.Call)
+				g := calleeOf(c)
+				if !isCall || g == nil || !producers[g] || round == 0 && w.FuncKey(g) != "signature.Create" || round > 0 && w.FuncKey(g) == "signature.Create" {
 					continue
 				}
-				last := ret.Results[len(ret.Results)-1]
-				if !isErrorType(last.Type()) {
+				var sigv ssa.Value
+				for _, ref := range nonDebugRefs(call) {
+					if ex, isE := ref.(*ssa.Extract); isE && ex.Index == 0 {
+						sigv = ex
+					}
+				}
+				if handsOn(fn, call, sigv) {
+					producers[fn] = true
+					grew = true
+					r.Ok("R-SIGNER", "attach@"+w.FuncKey(fn), w.InstrPos(call), "the signature and the verdict of the signing call are handed to the caller, nothing else reports success")
 					continue
 				}
-				if isFreshError(last) {
-					continue
-				}
-				// a return that can report success (nil, or an error value that may be nil): the store comes first
-				if !isNilConst(last) {
-					if nonNil, tested := fx.errBranches(last); tested {
-						onFailing := false
-						for _, nb := range nonNil {
-							// (a block that can also be entered another way - `if err != nil || always` - is not the failing side)
-							if len(nb.Preds) == 1 && (nb == ret.Block() || nb.Dominates(ret.Block())) {
-								onFailing = true
-							}
-						}
-						if onFailing {
+				nAttach++
+				var stores []*ssa.Store
+				if sigv != nil {
+					for _, st := range fx.info(fn).stores {
+						fa, isFA := st.Addr.(*ssa.FieldAddr)
+						if !isFA || fname(fieldVar(fa.X.Type(), fa.Field)) != "Signature" {
 							continue
 						}
-					}
-				}
-				// no way from the signing call to this return that passes neither the store nor the failing side of the call
-				avoid := map[*ssa.BasicBlock]bool{}
-				for _, st := range stores {
-					avoid[st.Block()] = true
-				}
-				if ce, has, _ := errResult(call); has && ce != nil {
-					nb, _ := fx.errBranches(ce)
-					for _, b := range nb {
-						if len(b.Preds) == 1 {
-							avoid[b] = true
+						same := st.Val == sigv
+						for _, a := range fx.aliasesOf(sigv) {
+							if a == st.Val {
+								same = true
+							}
+						}
+						if same {
+							stores = append(stores, st)
 						}
 					}
 				}
-				okS := avoid[call.Block()] || avoid[ret.Block()]
-				if !okS {
-					seenB := map[*ssa.BasicBlock]bool{call.Block(): true}
-					work := []*ssa.BasicBlock{call.Block()}
-					reached := false
-					for len(work) > 0 && !reached {
-						b := work[0]
-						work = work[1:]
-						for _, sc := range b.Succs {
-							if seenB[sc] || avoid[sc] {
+				bad := ""
+				if len(stores) == 0 {
+					bad = "the signature made here is never stored into the message"
+				}
+				fi := fx.info(fn)
+				for _, ret := range returnsOf(fn) {
+					if bad != "" || len(ret.Results) == 0 || !fi.reachable(call.Block(), ret.Block()) && call.Block() != ret.Block() {
+						continue
+					}
+					last := ret.Results[len(ret.Results)-1]
+					if !isErrorType(last.Type()) {
+						continue
+					}
+					if isFreshError(last) {
+						continue
+					}
+					// a return that can report success (nil, or an error value that may be nil): the store comes first
+					if !isNilConst(last) {
+						if nonNil, tested := fx.errBranches(last); tested {
+							onFailing := false
+							for _, nb := range nonNil {
+								// (a block that can also be entered another way - `if err != nil || always` - is not the failing side)
+								if len(nb.Preds) == 1 && (nb == ret.Block() || nb.Dominates(ret.Block())) {
+									onFailing = true
+								}
+							}
+							if onFailing {
 								continue
 							}
-							if sc == ret.Block() {
-								reached = true
-							}
-							seenB[sc] = true
-							work = append(work, sc)
 						}
 					}
-					okS = !reached && call.Block() != ret.Block()
+					// no way from the signing call to this return that passes neither the store nor the failing side of the call
+					avoid := map[*ssa.BasicBlock]bool{}
+					for _, st := range stores {
+						avoid[st.Block()] = true
+					}
+					if ce, has, _ := errResult(call); has && ce != nil {
+						nb, _ := fx.errBranches(ce)
+						for _, b := range nb {
+							if len(b.Preds) == 1 {
+								avoid[b] = true
+							}
+						}
+					}
+					okS := avoid[call.Block()] || avoid[ret.Block()]
+					if !okS {
+						seenB := map[*ssa.BasicBlock]bool{call.Block(): true}
+						work := []*ssa.BasicBlock{call.Block()}
+						reached := false
+						for len(work) > 0 && !reached {
+							b := work[0]
+							work = work[1:]
+							for _, sc := range b.Succs {
+								if seenB[sc] || avoid[sc] {
+									continue
+								}
+								if sc == ret.Block() {
+									reached = true
+								}
+								seenB[sc] = true
+								work = append(work, sc)
+							}
+						}
+						okS = !reached && call.Block() != ret.Block()
+					}
+					if !okS {
+						bad = "a return that reports success (" + w.InstrPos(ret) + ") is reached without the signature having been attached to the message"
+					}
 				}
-				if !okS {
-					bad = "a return that reports success (" + w.InstrPos(ret) + ") is reached without the signature having been attached to the message"
-				}
+				r.Check(bad == "", "R-SIGNER", "attach@"+w.FuncKey(fn), w.InstrPos(call), "the signature is attached before success is reported", bad+": the message is taken for signed and sent without its signature")
 			}
-			r.Check(bad == "", "R-SIGNER", "attach@"+w.FuncKey(fn), w.InstrPos(call), "the signature is attached before success is reported", bad+": the message is taken for signed and sent without its signature")
+		}
+		if !grew {
+			break
 		}
 	}
 	if nAttach == 0 {
